@@ -163,10 +163,10 @@ def make_case(rng, variant, **over):
     return case, order
 
 
-def long_case(rng, variant):
+def long_case(rng, variant, K=None, rounds=None):
     """a case built to LAST: close designs, small epsilon, slowly shrinking regions — 260-320 rounds of the same few designs, so
     that anything periodic in the round counter (a refresh every N rounds, a wrapping counter, an evicting cache) is passed"""
-    K = int(rng.integers(3, 6))
+    K = int(rng.integers(3, 6)) if K is None else K
     mu = rng.normal(size=(K, 2)) * 0.05
     over = dict(K=K, m=2, mu=mu, eps=1e-3, scale=1.0, cone_families=["orthant", "theta"], batch=1, delta=0.1)
     if VARIANTS[variant].get("bandit"):
@@ -174,7 +174,9 @@ def long_case(rng, variant):
     else:
         over.update(stub_mode="random", rho_g=0.997, rho_s=0.97, contraction=1.0, noise_var=0.01)
     case, order = make_case(rng, variant, **over)
-    case["max_rounds"] = int(rng.integers(260, 330))
+    case["max_rounds"] = int(rng.integers(260, 330)) if rounds is None else rounds
+    if rounds is not None and rounds > 330 and not VARIANTS[variant].get("bandit"):
+        case["rho_g"], case["rho_s"] = 0.9995, 0.995  # shrink slowly enough to still be undecided after `rounds` rounds
     return case, order
 
 
@@ -450,7 +452,7 @@ def run_case(case, order, mon, max_extra_steps=3, watch_updates=False):
     for r in range(case["max_rounds"]):
         rec = tr.step()
         mon.stat_max("longest_run_rounds", r + 1)
-        if r + 1 in (100, 200, 300):
+        if r + 1 in (100, 200, 300, 400):
             mon.count(f"runs_reaching_{r + 1}_rounds")
         if rec["crash"] is not None:
             tr.crashed = rec["crash"]
